@@ -31,6 +31,13 @@ KERNELS = [
          rowvars=V2_ROW, rowparams=V2_PARAMS, params={"col_slice": ("idx0", INT)},
          static={"isinstance(col_slice, Number)": True}, can_raise=True,
          type="Option (Int × Int)", note="K3: integer branch of col_slice, with its refusal guard (per row)"),
+    dict(name="rl_slice_bounds", file="npstructures/runlengtharray.py", qual="RunLengthArray._get_slice",
+         rowvars={}, rowparams=[("n", INT)], lens={"self": "n"},
+         params={"s.start": ("s_start", OPT), "s.stop": ("s_stop", OPT), "s.step": ("s_step", OPT)},
+         slices={"s": ("s.start", "s.stop", "s.step")},
+         stop_before="if start >= end", returns=["start", "end", "step", "start >= end"],
+         type="Int × Int × Int × Bool",
+         note="K8: slice normalisation of RunLengthArray._get_slice up to its emptiness test: (start, end, step, is_empty)"),
 ]
 
 
